@@ -24,7 +24,7 @@ import (
 func init() {
 	Registry["C11"] = &Check{
 		Scenarios: c11Scenarios,
-		Rule: "every CER over Origin-Host {absent, present} x Origin-Realm {absent, present} x Inband-Security-Id {absent, 0, 1, 2^31-1} x every sequence (so every order) of <=2 (thorough 3) application AVPs over 18 atoms: Acct-Application-Id {3 supported, 4 wrong type, 999 unsupported, relay}, Auth-Application-Id {4, 3 wrong type, 999, relay}, Vendor-Specific-Application-Id groups {[Vendor-Id, Auth 4], [Auth 999, Vendor-Id], [Vendor-Id, Auth 999], [Vendor-Id, Acct 3], [Vendor-Id], [Auth 16777251], [Acct 999], [Auth 4, Auth 999], [Auth 999, Auth 4], []}; settings with and without configured HostIPAddresses; local endpoint over {10.1.2.3, loopback, an IPv6 address in brackets, a multihomed SCTP endpoint 127.0.0.1/10.1.2.3/[2001:db8::7]}; hop-by-hop / end-to-end ids rotate over {0,1,2^31,2^32-1}. Each CER is sent end-to-end, on a connection of its own, to ONE state machine per scenario (so a verdict that depends on earlier CERs is caught; the visiting order alternates rich and poor CERs) over the in-memory transport, followed by an RAR whose gated handler reads the connection metadata. One deterministic schedule per CER (the quantifier is over inputs).",
+		Rule: "every CER over Origin-Host {absent, present} x Origin-Realm {absent, present} x Inband-Security-Id {absent, 0, 1, 2^31-1} x every sequence (so every order) of <=2 (thorough 3) application AVPs over 20 atoms (18 + Auth / Acct of an application id that a dictionary loaded into dict.Default declares under both types): Acct-Application-Id {3 supported, 4 wrong type, 999 unsupported, relay}, Auth-Application-Id {4, 3 wrong type, 999, relay}, Vendor-Specific-Application-Id groups {[Vendor-Id, Auth 4], [Auth 999, Vendor-Id], [Vendor-Id, Auth 999], [Vendor-Id, Acct 3], [Vendor-Id], [Auth 16777251], [Acct 999], [Auth 4, Auth 999], [Auth 999, Auth 4], []}; settings with and without configured HostIPAddresses; local endpoint over {10.1.2.3, loopback, an IPv6 address in brackets, a multihomed SCTP endpoint 127.0.0.1/10.1.2.3/[2001:db8::7]}; hop-by-hop / end-to-end ids rotate over {0,1,2^31,2^32-1}. Each CER is sent end-to-end, on a connection of its own, to ONE state machine per scenario (so a verdict that depends on earlier CERs is caught; the visiting order alternates rich and poor CERs) over the in-memory transport, followed by an RAR whose gated handler reads the connection metadata. One deterministic schedule per CER (the quantifier is over inputs).",
 		Assume: []string{"reference acceptance predicate written from the statement, with application support read from the independent refdict model of the embedded XML", "single default schedule per input"},
 		QuickBudget: 120, ThoroughBudget: 1800,
 	}
@@ -64,8 +64,19 @@ func c11Atoms() []c11Atom {
 		{"VS[Auth4,Auth999]", grp(auth(4), auth(999)), [][2]interface{}{A("auth", 4), A("auth", 999)}},
 		{"VS[Auth999,Auth4]", grp(auth(999), auth(4)), [][2]interface{}{A("auth", 999), A("auth", 4)}},
 		{"VS[]", grp(), nil},
+		// an application id the dictionary declares twice, once per type (see c11DualXML)
+		{"Auth16777999(dual)", auth(16777999), [][2]interface{}{A("auth", 16777999)}},
+		{"Acct16777999(dual)", acct(16777999), [][2]interface{}{A("acct", 16777999)}},
 	}
 }
+
+// c11DualXML declares one application id under both types; it is loaded into dict.Default (the
+// dictionary sm.New takes its supported applications from) and into the reference model.
+const c11DualXML = `<?xml version="1.0" encoding="UTF-8"?>
+<diameter>
+<application id="16777999" type="auth" name="Dual-Auth"></application>
+<application id="16777999" type="acct" name="Dual-Acct"></application>
+</diameter>`
 
 var c11Model *refdict.Model
 
@@ -78,6 +89,12 @@ func c11Supported(typ string, id uint32) bool {
 		c11Model = refdict.NewModel()
 		for _, e := range emb {
 			c11Model.Load(e.XML)
+		}
+		if err := dict.Default.Load(strings.NewReader(c11DualXML)); err != nil {
+			panic(err)
+		}
+		if err := c11Model.Load(c11DualXML); err != nil {
+			panic(err)
 		}
 	}
 	if id == 0xffffffff {
@@ -147,6 +164,7 @@ func c11AddrSubset(got, endpoint [][]byte) bool {
 
 func c11Run(r *SeqResult, host, realm bool, inband int, cfgIP bool, loop int, maxN int) {
 	atoms := c11Atoms()
+	c11Supported("auth", 4) // loads the dual-type dictionary before the state machine is created
 	var seqs [][]int
 	var rec func(cur []int)
 	rec = func(cur []int) {
@@ -198,12 +216,14 @@ func c11Run(r *SeqResult, host, realm bool, inband int, cfgIP bool, loop int, ma
 		}
 		var names []string
 		shared := map[uint32]bool{}
+		sharedTyped := map[string]bool{}
 		for _, i := range sq {
 			avps = append(avps, atoms[i].node)
 			names = append(names, atoms[i].name)
 			for _, a := range atoms[i].apps {
 				if c11Supported(a[0].(string), a[1].(uint32)) {
 					shared[a[1].(uint32)] = true
+					sharedTyped[fmt.Sprintf("%s/%d", a[0], a[1])] = true
 				}
 			}
 		}
@@ -295,22 +315,28 @@ func c11Run(r *SeqResult, host, realm bool, inband int, cfgIP bool, loop int, ma
 				}
 				// success CEA advertises at least the shared dictionary applications
 				if v == "" {
-					adv := map[uint32]bool{}
+					adv := map[string]bool{}
+					typ := map[uint32]string{258: "auth", 259: "acct"}
 					for _, code := range []uint32{258, 259} {
 						for _, x := range cea.FindAll(code) {
-							adv[be32(x.Payload)] = true
+							adv[fmt.Sprintf("%s/%d", typ[code], be32(x.Payload))] = true
 						}
 					}
 					for _, g := range cea.FindAll(260) {
 						for _, x := range g.Children {
 							if x.Code == 258 || x.Code == 259 {
-								adv[be32(x.Payload)] = true
+								adv[fmt.Sprintf("%s/%d", typ[x.Code], be32(x.Payload))] = true
 							}
 						}
 					}
-					for id := range shared {
-						if id != 0xffffffff && !adv[id] {
-							v = fmt.Sprintf("success CEA does not advertise shared application %d (advertised: %v)", id, keys(adv))
+					for k := range sharedTyped {
+						if !strings.HasSuffix(k, "/4294967295") && !adv[k] {
+							var l []string
+							for a := range adv {
+								l = append(l, a)
+							}
+							sort.Strings(l)
+							v = fmt.Sprintf("success CEA does not advertise the shared application %s (advertised: %v)", k, l)
 						}
 					}
 				}
